@@ -225,6 +225,25 @@ func Replay(t *testing.T, c Check, path string) {
 	if err != nil {
 		t.Fatalf("load %s: %v", path, err)
 	}
+	if os.Getenv("VERIF_DEBUG") != "" {
+		obs := world.Run(t, sc)
+		for _, ex := range obs.Exchanges {
+			t.Logf("%s", oracle.SummarizeExchange(obs, ex))
+			if src, ok := obs.FromStore(ex); ok {
+				for _, v := range oracle.Versions(obs, src, ex.StartSeq) {
+					lo, hi, exact := v.AgeBounds(ex.StartNs)
+					llo, lhi, kind, unspec := v.Lifetime()
+					t.Logf("      version %q: age %d..%d exact=%v life %d..%d %s unspec=%v hdr=%v", v.Why, lo, hi, exact, llo, lhi, kind, unspec, v.Header)
+				}
+			}
+		}
+		for _, op := range obs.Ops {
+			t.Logf("   op#%d ex=%d %s %q len=%d err=%q fault=%s", op.N, op.Ex, op.Op, op.Key, len(op.Val), op.Err, op.Fault)
+		}
+		if obs.Leak != "" || obs.Fatal != "" {
+			t.Logf("leak=%q fatal=%q", obs.Leak, obs.Fatal)
+		}
+	}
 	bad := r.judge(t, sc, true)
 	for _, v := range bad {
 		t.Errorf("%s", v.String())
